@@ -160,7 +160,12 @@ func c07Check(c c07Case, r *h.Rec) error {
 			ld = ld0
 		} else {
 			var err error
-			ld, err = fastload.Load(c.Spec)
+			if i%2 == 1 {
+				// the other legal order of entry into the FileSet (the real loader parses concurrently)
+				ld, err = fastload.LoadReversed(c.Spec)
+			} else {
+				ld, err = fastload.Load(c.Spec)
+			}
 			if err != nil {
 				return h.Inconcf("synthesised source does not type-check: %v", err)
 			}
@@ -194,7 +199,7 @@ func c07Check(c c07Case, r *h.Rec) error {
 			return err
 		}
 	}
-	if c.Reload || hasEnumInTwoFiles(c.Spec) {
+	if c.Reload || (r.Confirm && hasEnumInTwoFiles(c.Spec)) {
 		if err := c07RealReloads(c, r); err != nil {
 			return err
 		}
@@ -260,6 +265,9 @@ func c07RealReloads(c c07Case, r *h.Rec) error {
 	loads := 4
 	if hasEnumInTwoFiles(c.Spec) {
 		loads = 12
+		if r.Confirm {
+			loads = 40 // whether two loads differ depends on goroutine scheduling inside go/packages
+		}
 		r.Class("reload:enum_members_in_two_files")
 	}
 	var first map[string]string
@@ -402,7 +410,7 @@ func c07Routes(c c07Case, r *h.Rec, R int) error {
 func TestC07(t *testing.T) {
 	h.Main(t, h.Prop[c07Case]{
 		ID: "C07", ConfirmTries: 12,
-		Rule: "rapid programs of the types profile (>= 1 union, several imported user packages, generics, aliases), the sql profile (with directives) and the routes profile; each is analysed and generated 8 times in one process (half on a shared load, half on fresh loads) for gounions, randdata, sqlcrud (sets on/off), sql, typescript types, dart (all files) or the Axios client, comparing every output text and the set of output files; 1 program in 40 is also run three times through the real CLI (go build of cmd, -config mode with a _dart entry, PATH holding only `go`) as separate processes, comparing every written file; 1 program in 30, and every program whose enum members are spread over two files (12 loads instead of 4), is also loaded repeatedly with the real analysis.LoadSource, whose parser works concurrently, comparing all outputs; " +
+		Rule: "rapid programs of the types profile (>= 1 union, several imported user packages, generics, aliases), the sql profile (with directives) and the routes profile; each is analysed and generated 8 times in one process (half on a shared load, half on fresh loads which alternate between the two orders in which files can enter the FileSet) for gounions, randdata, sqlcrud (sets on/off), sql, typescript types, dart (all files) or the Axios client, comparing every output text and the set of output files; 1 program in 40 is also run three times through the real CLI (go build of cmd, -config mode with a _dart entry, PATH holding only `go`) as separate processes, comparing every written file; 1 program in 30 is also loaded 4 times with the real analysis.LoadSource, whose parser works concurrently, comparing all outputs; " +
 			"non-trivial = a program with >= 2 non-root packages, >= 2 unions, a sql model or a route file; distinct by SHA-256 of the source",
 		Assumes: []string{
 			"Go's per-iteration randomised map order plays the scheduler: a dependence on the order of k >= 2 map entries survives 8 runs with probability <= 2^-7",
